@@ -689,6 +689,7 @@ void GridSequence::setSurplusRefinement(double tolerance, int output, const std:
             if (norm[k] < v) norm[k] = v;
         }
     }
+    for(auto &n : norm) if (n == 0.0) n = 1.0; // an identically zero output has zero surpluses, 0/0 must not decide the refinement
 
     if (output == -1){
         for(int i=0; i<num_points; i++){
